@@ -16,16 +16,16 @@ Definition wf_choice_master (m:list word) : bool :=
 Definition master_ok (m:list word) : bool := negb (is_plain_none m) && negb (is_plain_auto m).
 
 (* the two selection loops behind one name *)
-Definition sel_loop (mand:bool) (src:list word) (ign:bool) (fl0:flags) : lres :=
+Definition sel_loop (mand:bool) (m src:list word) (ign:bool) (fl0:flags) : lres :=
   if mand || negb (is_plain_none src) then
-    if plus_form src then pieces_loop (plus_pieces src) fl0
+    if plus_form m src then pieces_loop (plus_pieces src) fl0
     else normal_loop (length src =? 1)%nat ign src fl0
   else LOk fl0.
 
 Lemma fetch_unfold : forall opt m src ign,
   master_ok m = true -> is_plain_auto src = false ->
   choice_fetch_x opt m src ign =
-    match sel_loop (mandatory opt) src ign (init_flags m []) with
+    match sel_loop (mandatory opt) m src ign (init_flags m []) with
     | LBad v l => FNotAChoice v l (map wv m)
     | LOk fl => rebuild m fl
     end.
@@ -68,18 +68,18 @@ Proof. intros m w H. unfold fhas. rewrite (init_get_master m w H). reflexivity. 
 (* ---------- selection: the one equation behind C11_alternatives_kept and C11_selection *)
 Theorem fetch_ok_spec : forall opt m src ign r,
   choice_fetch_x opt m src ign = FOk r -> is_plain_auto src = false ->
-  r = map (fun w => restar (requested (mandatory opt) src (key w)) w) m.
+  r = map (fun w => restar (requested (mandatory opt) m src (key w)) w) m.
 Proof.
   intros opt m src ign r H A. pose proof (fetch_ok_master_ok _ _ _ _ _ H) as M.
   rewrite (fetch_unfold opt m src ign M A) in H.
-  assert (G : forall fl, (forall w, In w m -> fget (key w) fl = Some (requested (mandatory opt) src (key w))) ->
-                         rebuild m fl = FOk r -> r = map (fun w => restar (requested (mandatory opt) src (key w)) w) m).
-  { intros fl Hfl Hr. rewrite (rebuild_spec (requested (mandatory opt) src) m fl Hfl) in Hr. inversion Hr. reflexivity. }
+  assert (G : forall fl, (forall w, In w m -> fget (key w) fl = Some (requested (mandatory opt) m src (key w))) ->
+                         rebuild m fl = FOk r -> r = map (fun w => restar (requested (mandatory opt) m src (key w)) w) m).
+  { intros fl Hfl Hr. rewrite (rebuild_spec (requested (mandatory opt) m src) m fl Hfl) in Hr. inversion Hr. reflexivity. }
   unfold sel_loop in H.
   destruct (mandatory opt || negb (is_plain_none src)) eqn:Gd.
   - assert (Gd' : negb (mandatory opt) && is_plain_none src = false).
     { destruct (mandatory opt); [reflexivity|]. cbn in *. apply negb_true_iff in Gd. exact Gd. }
-    destruct (plus_form src) eqn:P.
+    destruct (plus_form m src) eqn:P.
     + destruct (pieces_loop (plus_pieces src) (init_flags m [])) as [fl|v l] eqn:L; [|discriminate].
       apply (G fl); [|exact H]. intros w Hw. unfold requested. rewrite Gd', P.
       rewrite (pieces_get _ _ _ (key w) L). fold (plus_names src).
@@ -125,23 +125,24 @@ Proof.
     + apply map_length.
     + rewrite map_map. reflexivity.
     + rewrite map_map. reflexivity.
-    + clear H. induction m as [|w m' IH]; cbn; constructor; [|exact IH].
-      destruct (requested (mandatory opt) src (key w)); cbn; [right | left]; reflexivity.
+    + clear H. generalize (requested (mandatory opt) m src). intro sel.
+      induction m as [|w m' IH]; cbn; constructor; [|exact IH].
+      destruct (sel (key w)); cbn; [right | left]; reflexivity.
     + intro W. rewrite map_map. apply map_ext_in. intros w Hw. cbn.
-      destruct (requested (mandatory opt) src (key w)); [apply unstar_star|].
+      destruct (requested (mandatory opt) m src (key w)); [apply unstar_star|].
       apply unstar_fix. apply wf_alt_nostar. apply (wf_forall m W w Hw).
 Qed.
 
 Theorem selection : forall opt m src ign r,
   choice_fetch opt m src ign = Ok r -> is_plain_auto src = false ->
-  r = map (fun w => restar (requested (mandatory opt) src (key w)) w) m
+  r = map (fun w => restar (requested (mandatory opt) m src (key w)) w) m
   /\ (wf_choice_master m = true ->
-        map (fun w => starts_star (wv w)) r = map (fun w => requested (mandatory opt) src (key w)) m).
+        map (fun w => starts_star (wv w)) r = map (fun w => requested (mandatory opt) m src (key w)) m).
 Proof.
   intros opt m src ign r H A. apply fetch_res_ok in H.
   pose proof (fetch_ok_spec _ _ _ _ _ H A) as E. split; [exact E|].
   intro W. subst r. rewrite map_map. apply map_ext_in. intros w Hw. cbn.
-  destruct (requested (mandatory opt) src (key w)); [reflexivity|].
+  destruct (requested (mandatory opt) m src (key w)); [reflexivity|].
   apply wf_alt_nostar. apply (wf_forall m W w Hw).
 Qed.
 
@@ -163,7 +164,7 @@ Qed.
 Theorem last_occurrence_decides : forall opt m pre w post ign r a,
   let src := pre ++ w :: post in
   choice_fetch opt m src ign = Ok r -> is_plain_auto src = false ->
-  (mandatory opt || negb (is_plain_none src)) = true -> plus_form src = false ->
+  (mandatory opt || negb (is_plain_none src)) = true -> plus_form m src = false ->
   (forall p, In p post -> key p <> key w) ->
   In a m -> key a = key w ->
   In (restar (starts_star (wv w) || (length src =? 1)%nat) a) r.
@@ -202,7 +203,7 @@ Theorem unknown_selected_errors : forall opt m pre w post,
   let src := pre ++ w :: post in
   let sg := (length src =? 1)%nat in
   master_ok m = true -> is_plain_auto src = false ->
-  (mandatory opt || negb (is_plain_none src)) = true -> plus_form src = false ->
+  (mandatory opt || negb (is_plain_none src)) = true -> plus_form m src = false ->
   flagged sg w = true -> mems (key w) (keys m) = false ->
   (forall p, In p pre -> flagged sg p = true -> mems (key p) (keys m) = true) ->
   choice_fetch_x opt m src false = FNotAChoice (unstar (wv w)) (wline w) (map wv m).
@@ -236,31 +237,43 @@ Proof.
   unfold lowers. induction s as [|c s IH]; [reflexivity|]. cbn [map mem]. rewrite IH.
   rewrite (Ascii.eqb_sym plus (lower c)), (Ascii.eqb_sym plus c), lower_plus. reflexivity.
 Qed.
-Lemma plus_form_not_plain : forall src name,
-  mem plus name = false -> plus_form src = true -> is_plain name src = false.
+Lemma plus_form0_not_plain : forall src name,
+  mem plus name = false -> plus_form0 src = true -> is_plain name src = false.
 Proof.
   intros src name Hn P. unfold is_plain. destruct src as [|w [|? ?]]; try reflexivity.
-  unfold plus_form in P. apply andb_true_iff in P. destruct P as [P _].
+  unfold plus_form0 in P. apply andb_true_iff in P. destruct P as [P _].
   apply andb_true_iff in P. destruct P as [_ P]. cbn in P. rewrite orb_false_r in P.
   eqs_case (lowers (wv w)) name; [|apply andb_false_r].
   rewrite <- mem_plus_lowers in P. rewrite E in P. congruence.
 Qed.
-Lemma plus_form_guard : forall src mand,
-  plus_form src = true -> is_plain_auto src = false /\ (mand || negb (is_plain_none src)) = true.
+Lemma plus_form0_guard : forall src mand,
+  plus_form0 src = true -> is_plain_auto src = false /\ (mand || negb (is_plain_none src)) = true.
 Proof.
   intros src mand P. split.
-  - apply (plus_form_not_plain src (s_ "auto")); [reflexivity | exact P].
-  - unfold is_plain_none. rewrite (plus_form_not_plain src (s_ "none")); [apply orb_true_r | reflexivity | exact P].
+  - apply (plus_form0_not_plain src (s_ "auto")); [reflexivity | exact P].
+  - unfold is_plain_none. rewrite (plus_form0_not_plain src (s_ "none")); [apply orb_true_r | reflexivity | exact P].
+Qed.
+Lemma plus_form_not_plain : forall m src name,
+  mem plus name = false -> plus_form m src = true -> is_plain name src = false.
+Proof.
+  intros m src name Hn P. apply plus_form_true_inv in P. destruct P as [_ P].
+  apply plus_form0_not_plain; assumption.
+Qed.
+Lemma plus_form_guard : forall m src mand,
+  plus_form m src = true -> is_plain_auto src = false /\ (mand || negb (is_plain_none src)) = true.
+Proof.
+  intros m src mand P. apply plus_form_true_inv in P. destruct P as [_ P].
+  apply plus_form0_guard. exact P.
 Qed.
 
 Theorem unknown_selected_errors_plus : forall opt m src ign pre v l post,
-  master_ok m = true -> plus_form src = true ->
+  master_ok m = true -> plus_form m src = true ->
   plus_pieces src = pre ++ (v, l) :: post ->
   (forall p, In p pre -> mems (lowers (fst p)) (keys m) = true) -> mems (lowers v) (keys m) = false ->
   choice_fetch_x opt m src ign = FNotAChoice v l (map wv m).
 Proof.
   intros opt m src ign pre v l post M P E Hpre Hv.
-  destruct (plus_form_guard src (mandatory opt) P) as [A G].
+  destruct (plus_form_guard m src (mandatory opt) P) as [A G].
   rewrite (fetch_unfold opt m src ign M A). unfold sel_loop. rewrite G, P, E.
   rewrite (pieces_first_bad pre v l post); [reflexivity | |].
   - intros p Hp. rewrite fhas_init. apply Hpre. exact Hp.
@@ -271,11 +284,11 @@ Qed.
 Theorem selected_unknown_never_dropped : forall opt m src,
   master_ok m = true -> is_plain_auto src = false ->
   (mandatory opt || negb (is_plain_none src)) = true ->
-  (plus_form src = false ->
+  (plus_form m src = false ->
      (exists w, In w src /\ flagged (length src =? 1)%nat w = true /\ mems (key w) (keys m) = false) ->
      exists w, In w src /\ flagged (length src =? 1)%nat w = true /\ mems (key w) (keys m) = false
        /\ choice_fetch_x opt m src false = FNotAChoice (unstar (wv w)) (wline w) (map wv m)) /\
-  (plus_form src = true -> forall ign,
+  (plus_form m src = true -> forall ign,
      (exists n, In n (plus_names src) /\ mems (lowers n) (keys m) = false) ->
      exists v l, In (v, l) (plus_pieces src) /\ mems (lowers v) (keys m) = false
        /\ choice_fetch_x opt m src ign = FNotAChoice v l (map wv m)).
@@ -306,13 +319,13 @@ Qed.
 
 (* the "+" form is case-insensitive like the other spellings *)
 Theorem plus_case_insensitive : forall opt m src ign,
-  master_ok m = true -> plus_form src = true ->
+  master_ok m = true -> plus_form m src = true ->
   (forall n, In n (plus_names src) -> mems (lowers n) (keys m) = true) ->
   choice_fetch opt m src ign =
     Ok (map (fun w => restar (mems (key w) (map lowers (plus_names src))) w) m).
 Proof.
   intros opt m src ign M P H.
-  destruct (plus_form_guard src (mandatory opt) P) as [A G].
+  destruct (plus_form_guard m src (mandatory opt) P) as [A G].
   unfold choice_fetch. rewrite (fetch_unfold opt m src ign M A). unfold sel_loop. rewrite G, P.
   assert (Ok' : exists fl, pieces_loop (plus_pieces src) (init_flags m []) = LOk fl).
   { destruct (pieces_loop (plus_pieces src) (init_flags m [])) as [fl|v l] eqn:L; [exists fl; reflexivity|].
@@ -330,10 +343,10 @@ Qed.
 Theorem error_sound : forall opt m src ign v l alts,
   choice_fetch_x opt m src ign = FNotAChoice v l alts ->
   alts = map wv m /\
-  (plus_form src = false ->
+  (plus_form m src = false ->
      ign = false /\ exists pre w post, src = pre ++ w :: post /\ v = unstar (wv w) /\ l = wline w
        /\ flagged (length src =? 1)%nat w = true /\ mems (key w) (keys m) = false) /\
-  (plus_form src = true -> In (v, l) (plus_pieces src) /\ mems (lowers v) (keys m) = false).
+  (plus_form m src = true -> In (v, l) (plus_pieces src) /\ mems (lowers v) (keys m) = false).
 Proof.
   intros opt m src ign v l alts H.
   destruct (master_ok m) eqn:M; [|rewrite (fetch_crash _ _ _ _ M) in H; discriminate].
@@ -345,7 +358,7 @@ Proof.
     destruct (rebuild m fl); [discriminate | exact IH | discriminate]. }
   unfold sel_loop in H.
   destruct (mandatory opt || negb (is_plain_none src)); [|exfalso; exact (R _ H)].
-  destruct (plus_form src) eqn:P.
+  destruct (plus_form m src) eqn:P.
   - destruct (pieces_loop (plus_pieces src) (init_flags m [])) as [fl|v' l'] eqn:L; [exfalso; exact (R _ H)|].
     inversion H; subst. split; [reflexivity|]. split; [discriminate|]. intros _.
     destruct (pieces_bad_sound _ _ _ _ L) as [pre [post [E [Hv _]]]].
@@ -357,7 +370,7 @@ Proof.
 Qed.
 
 Theorem ignore_errors_normal : forall opt m src v l alts,
-  plus_form src = false -> choice_fetch_x opt m src true <> FNotAChoice v l alts.
+  plus_form m src = false -> choice_fetch_x opt m src true <> FNotAChoice v l alts.
 Proof.
   intros opt m src v l alts P H. apply error_sound in H. destruct H as [_ [H _]].
   destruct (H P) as [E _]. discriminate.
@@ -372,7 +385,7 @@ Proof. intros A l H. apply Nat.eqb_neq. lia. Qed.
 Theorem unknown_unselected_ignored : forall opt m pre u post ign,
   (2 <= length (pre ++ post))%nat ->
   starts_star (wv u) = false -> mems (key u) (keys m) = false ->
-  plus_form (pre ++ post) = false -> plus_form (pre ++ u :: post) = false ->
+  plus_form m (pre ++ post) = false -> plus_form m (pre ++ u :: post) = false ->
   choice_fetch_x opt m (pre ++ u :: post) ign = choice_fetch_x opt m (pre ++ post) ign.
 Proof.
   intros opt m pre u post ign Len Su Uu P1 P2.
@@ -389,13 +402,20 @@ Proof.
   unfold flagged. rewrite Su. reflexivity.
 Qed.
 
-Lemma qs_not_plus_form : forall src, existsb qs src = true -> plus_form src = false.
-Proof. intros src H. unfold plus_form. rewrite H. reflexivity. Qed.
-Lemma no_plus_not_plus_form : forall src,
-  (forall w, In w src -> mem plus (wv w) = false) -> plus_form src = false.
+(* without a master in scope: stated for the master-independent part (the stronger form) ... *)
+Lemma qs_not_plus_form0 : forall src, existsb qs src = true -> plus_form0 src = false.
+Proof. intros src H. unfold plus_form0. rewrite H. reflexivity. Qed.
+Lemma no_plus_not_plus_form0 : forall src,
+  (forall w, In w src -> mem plus (wv w) = false) -> plus_form0 src = false.
 Proof.
-  intros src H. unfold plus_form. rewrite (existsb_false _ src H). rewrite andb_false_r. reflexivity.
+  intros src H. unfold plus_form0. rewrite (existsb_false _ src H). rewrite andb_false_r. reflexivity.
 Qed.
+(* ... and hence for every master *)
+Lemma qs_not_plus_form : forall m src, existsb qs src = true -> plus_form m src = false.
+Proof. intros m src H. apply plus_form0_false. apply qs_not_plus_form0. exact H. Qed.
+Lemma no_plus_not_plus_form : forall m src,
+  (forall w, In w src -> mem plus (wv w) = false) -> plus_form m src = false.
+Proof. intros m src H. apply plus_form0_false. apply no_plus_not_plus_form0. exact H. Qed.
 
 (* ---------- from_words *)
 Lemma single_loop_spec : forall ws all acc,
@@ -477,7 +497,7 @@ Qed.
 
 (* ---------- composition *)
 Definition selected_names (mand:bool) (m src:list word) : list str :=
-  map (fun w => unstar (wv w)) (filter (fun w => requested mand src (key w)) m).
+  map (fun w => unstar (wv w)) (filter (fun w => requested mand m src (key w)) m).
 
 Lemma starred_names_restar : forall (sel:str -> bool) m,
   (forall w, In w m -> starts_star (unstar (wv w)) = false) ->
@@ -618,9 +638,9 @@ Proof.
   assert (Nn : is_plain_none [w] = false).
   { unfold is_plain_none, is_plain. unfold key in Hk. rewrite (unstar_fix _ Sw) in Hk.
     rewrite Hk. fold (key a). rewrite Wnone. apply andb_false_r. }
-  assert (P : plus_form [w] = false).
+  assert (P : plus_form m [w] = false).
   { apply no_plus_not_plus_form. intros x [Hx|[]]. subst x. exact Pw. }
-  assert (Rq : forall k, requested (mandatory opt) [w] k = eqs (key a) k).
+  assert (Rq : forall k, requested (mandatory opt) m [w] k = eqs (key a) k).
   { intro k. unfold requested. rewrite Nn, P, andb_false_r. cbn [last_match length Nat.eqb].
     rewrite Hk. destruct (eqs (key a) k); [apply orb_true_r | reflexivity]. }
   pose proof (wf_master_ok m W) as M.
@@ -647,6 +667,68 @@ Proof.
   rewrite (filter_ext _ (fun x => eqs (key a) (key x))) in X by (intro x; apply Rq).
   rewrite (filter_unique (key a) m a (wf_nodup m W) Ha eq_refl) in X. cbn [map] in X.
   unfold extract_spec in X. destruct multi; exact X.
+Qed.
+
+(* ---------- the complete list of alternatives, written without a star, selects nothing *)
+Lemma last_match_In : forall k src w, last_match k src = Some w -> In w src.
+Proof.
+  intros k. induction src as [|x src IH]; intros w H; [discriminate|].
+  cbn [last_match] in H. destruct (last_match k src) as [y|] eqn:L.
+  - inversion H; subst. right. apply IH. reflexivity.
+  - destruct (eqs (key x) k); [|discriminate]. inversion H; subst. left. reflexivity.
+Qed.
+
+(* several words, none starred, not the "+" form: nothing is selected and nothing raises (an
+   un-starred word never raises), whatever .optional and ignore_errors are *)
+Theorem unstarred_list_selects_nothing : forall opt m src ign,
+  master_ok m = true -> (2 <= length src)%nat -> plus_form m src = false ->
+  (forall w, In w src -> starts_star (wv w) = false) ->
+  choice_fetch opt m src ign = Ok (map (restar false) m).
+Proof.
+  intros opt m src ign M Len P Hs. unfold choice_fetch.
+  rewrite (fetch_unfold opt m src ign M (len2_not_plain _ _ Len)). unfold sel_loop.
+  unfold is_plain_none. rewrite (len2_not_plain _ _ Len). rewrite orb_true_r. rewrite P.
+  rewrite (len2_not_single _ Len).
+  destruct (normal_pre_ok false ign src (init_flags m [])) as [fl L].
+  { intros p Hp Fp. unfold flagged in Fp. rewrite (Hs p Hp) in Fp. discriminate. }
+  rewrite L. rewrite (rebuild_spec (fun _ => false) m fl); [reflexivity|].
+  intros w Hw. rewrite (normal_get _ _ _ _ _ (key w) (init_has_master m w Hw) L).
+  destruct (last_match (key w) src) as [x|] eqn:Lm; [|apply init_get_master; exact Hw].
+  unfold flagged. rewrite (Hs x (last_match_In _ _ _ Lm)). reflexivity.
+Qed.
+
+Theorem plus_form_needs_incomplete_list : forall m src,
+  plus_form m src = true -> full_list m src = false.
+Proof. intros m src H. apply plus_form_true_inv in H. apply H. Qed.
+
+(* the words of a complete list carry the master's names *)
+Lemma full_list_words : forall m src w,
+  full_list m src = true -> In w src -> exists a, In a m /\ wv w = unstar (wv a).
+Proof.
+  intros m src w F Hw. apply full_list_true_iff in F.
+  assert (I : In (wv w) (alts_of m)) by (rewrite <- F; apply in_map; exact Hw).
+  unfold alts_of in I. apply in_map_iff in I. destruct I as [a [E Ha]]. exists a. split; [exact Ha | symmetry; exact E].
+Qed.
+
+(* For a well-formed master with at least two alternatives: the complete list written without a
+   star (any quoting, any .optional, any ignore_errors) is not the "+" form even if names contain
+   "+", it is accepted, no alternative comes back starred, and the values that come back are
+   exactly the values of the source. *)
+Theorem full_list_selects_nothing : forall opt m src ign,
+  wf_choice_master m = true -> full_list m src = true -> (2 <= length src)%nat ->
+  plus_form m src = false
+  /\ choice_fetch opt m src ign = Ok (map (restar false) m)
+  /\ map (fun w => starts_star (wv w)) (map (restar false) m) = map (fun _ => false) m
+  /\ map wv (map (restar false) m) = map wv src.
+Proof.
+  intros opt m src ign W F Len.
+  assert (Hm : forall a, In a m -> starts_star (unstar (wv a)) = false).
+  { intros a Ha. apply wf_alt_nostar. apply (wf_forall m W a Ha). }
+  split; [apply plus_form_full; exact F|]. split; [|split].
+  - apply unstarred_list_selects_nothing; [apply wf_master_ok; exact W | exact Len | apply plus_form_full; exact F |].
+    intros w Hw. destruct (full_list_words m src w F Hw) as [a [Ha E]]. rewrite E. apply Hm. exact Ha.
+  - rewrite map_map. apply map_ext_in. intros a Ha. cbn. apply Hm. exact Ha.
+  - rewrite map_map. apply full_list_true_iff in F. rewrite F. reflexivity.
 Qed.
 
 (* ---------- witnesses *)
